@@ -815,7 +815,7 @@ func runC03(b *fw.B) {
 	if !quick {
 		n = 4
 	}
-	fams := []string{"churn", "capella", "custom", "ragged", "capella", "churn", "steady", "custom"}
+	fams := []string{"churn", "capella", "custom", "ragged", "sweep", "churn", "steady", "custom"}
 	basesPerChain := 3
 	if !quick {
 		basesPerChain = 4
